@@ -57,7 +57,9 @@ def build_forsys(p):
 BUILD = st.fixed_dictionaries({
     "op": st.just("build"), "t": st.integers(0, 3),
     "limit": st.sampled_from(["default", "default", "inf", 0.6, 0.7, 0.8, 0.9]),
-    "fit": st.sampled_from(["dlite", "taubinSVD"]), "ignore_four": st.booleans()})
+    "fit": st.sampled_from(["dlite", "taubinSVD"]), "ignore_four": st.booleans(),
+    # arguments left out of the call when they have their documented default (bit 0: metadata, bit 1: circle fit)
+    "omit": st.integers(0, 3)})
 SOLVE = st.fixed_dictionaries({
     "op": st.just("solve"), "t": st.integers(0, 3),
     "method": st.sampled_from([None, None, "lsq", "lsq_linear"]),
@@ -69,12 +71,22 @@ SYSVEL = st.fixed_dictionaries({"op": st.just("sysvel")})
 FILTER = st.fixed_dictionaries({"op": st.just("filter"), "t": st.integers(0, 3)})
 
 
-def build_kwargs(step):
-    kw = dict(when=step["t"], metadata={"ignore_four": step["ignore_four"]}, circle_fit_method=step["fit"])
+def build_kwargs(step, explicit=False):
+    """Arguments of build_force_matrix. The object under test leaves defaults out as drawn (step['omit']); the fresh
+    reference object spells every documented default out (explicit=True: angle_limit=pi, circle_fit_method='dlite',
+    its own metadata dict), so defaults that drift during a history are seen."""
+    omit = 0 if explicit else int(step.get("omit", 0))
+    kw = dict(when=step["t"])
+    if not (omit & 1 and not step["ignore_four"]):
+        kw["metadata"] = {"ignore_four": step["ignore_four"]}
+    if not (omit & 2 and step["fit"] == "dlite"):
+        kw["circle_fit_method"] = step["fit"]
     if step["limit"] == "inf":
         kw["angle_limit"] = np.inf
     elif step["limit"] != "default":
         kw["angle_limit"] = float(step["limit"]) * math.pi
+    elif explicit:
+        kw["angle_limit"] = np.pi
     return kw
 
 
@@ -166,7 +178,7 @@ class History:
             S2, f2 = build_forsys(self.p)
             for k in sorted(filt_build):
                 call(f2.frames[k].filter_edges, "SG")
-            call(f2.build_force_matrix, **build_kwargs(dict(b, t=t)))
+            call(f2.build_force_matrix, **build_kwargs(dict(b, t=t), explicit=True))
             for k in sorted(set(filt_solve) - set(filt_build)):
                 call(f2.frames[k].filter_edges, "SG")
             call(f2.solve_stress, when=t, **solve_kwargs(s, len(f2.frames[t].internal_big_edges)))
@@ -225,6 +237,8 @@ class History:
                 prev = self.last_build.get(step["t"])
                 call(self.fsys.build_force_matrix, **build_kwargs(step))
                 self.last_build[step["t"]] = {k: step[k] for k in ("op", "limit", "fit", "ignore_four")}
+                if step.get("omit"):
+                    self.ctx.count("builds-with-defaults-left-out")
                 self.build_filt[step["t"]] = frozenset(self.filtered)
             elif op == "sysvel":
                 call(self.fsys.get_system_velocity_per_frame)
